@@ -321,6 +321,10 @@ func main() {
 			f.WriteString(r + "\n")
 		}
 		must(f.Close())
+	case "workload":
+		os.Exit(walWorkload(os.Args[2:]))
+	case "restart":
+		os.Exit(walRestart(os.Args[2:]))
 	default:
 		os.Exit(2)
 	}
